@@ -10,9 +10,9 @@ PROBES = [("probe_session", "asan", None, ["utest"]), ("probe_session", "plain",
 
 MANIFEST = dict(
     text="TLC explores the supervision design (Heartbeat.tla: virtual clock on a one-second grid, supervision ticks "
-         "after 1, 2, H-1, H, H+20% and H+20%+1 seconds, inbound Heartbeat / TestRequest, application sends) for "
-         "H in {5, 10}, checks that the C22 monitor accepts every behaviour of the ideal design and rejects the deviation "
-         "testreq_grace_is_one_tick, and exports timelines (H in {5, 10, 30}); each is replayed on the real Session with "
+         "after 1, 2, H-1, H, H+20% and H+20%+1 seconds, inbound Heartbeat / TestRequest, an inbound message above the expected number after which the peer is silent, application sends) for "
+         "H in {5, 10}, checks that the C22 monitor accepts every behaviour of the ideal design and rejects the deviations "
+         "testreq_grace_is_one_tick and no_testreq_while_resend_outstanding, and exports timelines (H in {5, 10, 30}); each is replayed on the real Session with "
          "the virtual clock (clock_gettime interposed) by calling Session::heartbeat_service at the chosen instants; the "
          "monitor judges Heartbeat when idle >= H, TestRequest after silence > H+20%, Logout only after a second such "
          "period, echo of TestReqID, Heartbeat clearing a pending TestRequest.",
@@ -40,6 +40,8 @@ def exec_from_hist(hist, H):
         elif op == "Send":
             ex.send(nid)
             nid += 1
+        elif op == "RecvHigh":
+            ex.recv("D", seq=ex.peer_seq + 1, ident=50)     # one number is missing: the session asks for it; the peer stays silent
     return ex
 
 
@@ -53,7 +55,10 @@ def run(ctx):
     d = tlc.check("Heartbeat.tla", "MC_Heartbeat_dev.cfg", workers=8, timeout=600)
     if d["ok"]:
         raise core.Infra("deviation testreq_grace_is_one_tick not rejected: C22 monitor vacuous")
-    ctx.extra["deviation_witnesses"] = ["testreq_grace_is_one_tick"]
+    d = tlc.check("Heartbeat.tla", "MC_Heartbeat_dev_resend.cfg", workers=8, timeout=600)
+    if d["ok"]:
+        raise core.Infra("deviation no_testreq_while_resend_outstanding not rejected: C22 monitor vacuous")
+    ctx.extra["deviation_witnesses"] = ["testreq_grace_is_one_tick", "no_testreq_while_resend_outstanding"]
     ctx.tick("model")
     rng = random.Random(ctx.seed + 22)
     execs, meta = [], []
@@ -63,7 +68,13 @@ def run(ctx):
         if len(hs) < 1000:
             raise core.Infra("timeline export produced only %d histories" % len(hs))
         ctx.add_model(r, "Heartbeat.tla", "MC_Heartbeat_export_H%d.cfg" % H, ["timeline export"])
-        hs = rng.sample(hs, 500 if ctx.quick else 6000)
+        n = 500 if ctx.quick else 6000
+        # a third of the sample: timelines in which a sequence gap is met and the peer falls silent afterwards
+        gap = [h for h in hs if any(i["op"] == "RecvHigh" for i in h)]
+        rest = [h for h in hs if not any(i["op"] == "RecvHigh" for i in h)]
+        if len(gap) < 100:
+            raise core.Infra("only %d exported timelines contain a sequence gap" % len(gap))
+        hs = rng.sample(gap, min(len(gap), n // 3)) + rng.sample(rest, min(len(rest), n - n // 3))
         for h in hs:
             execs.append(exec_from_hist(h, H))
             meta.append((H, h))
